@@ -158,14 +158,16 @@ class Gen:
             return {"k": "vstack", "ops": ops, "nin": flat_size(ishape), "co": True}
         if f == "vstackB":
             ops = [self.gen(ishape, tuple(b), d) for b in oshape]
-            return {"k": "vstack", "ops": ops, "nin": flat_size(ishape), "co": bool(rng.integers(2))}
+            # a block shape with equal blocks only arises when collapsing is switched off
+            return {"k": "vstack", "ops": ops, "nin": flat_size(ishape), "co": False if _all_equal(oshape) else bool(rng.integers(2))}
         if f == "dstack":
             S = ishape[0]
             ops = [self.gen(tuple(ishape[1:]), tuple(oshape[1:]), d) for _ in range(S)]
             return {"k": "dstack", "ops": ops, "ci": True, "co": True}
         if f == "dstackB":
             ops = [self.gen(tuple(a), tuple(b), d) for a, b in zip(ishape, oshape)]
-            return {"k": "dstack", "ops": ops, "ci": bool(rng.integers(2)), "co": bool(rng.integers(2))}
+            return {"k": "dstack", "ops": ops, "ci": False if _all_equal(ishape) else bool(rng.integers(2)),
+                    "co": False if _all_equal(oshape) else bool(rng.integers(2))}
         if f == "drep":
             ia, oa = ks[int(rng.integers(len(ks)))]
             k = ishape[ia]
@@ -184,6 +186,10 @@ class Gen:
         if r < 0.85:
             return ((2,), (1, 2))
         return ((2,), (2,))
+
+
+def _all_equal(shape):
+    return all(tuple(b) == tuple(shape[0]) for b in shape)
 
 
 def _c2(c):
